@@ -103,7 +103,7 @@ VARIABLES
   pc,        \* [Filters -> control point]
   minSend,   \* ZMQSender.min_send_id
   clients,   \* ZMQSender.clients: [Filters -> Seq([c, inc, req, eph, prev, age])] in dict insertion order
-  sl,        \* locals of the running send(): [mid, bal, doSend, doHello, outs]
+  sl,        \* locals of the running send(): [mid, bal, doSend, doHello, outs (balanced: the client list `outputs` was computed from)]
   prevId,    \* ZMQReceiver.prev_id
   rmin,      \* local min_recv_id of the running recv()
   rbal,      \* local `balanced` of the running recv()
@@ -141,7 +141,7 @@ InitSrcs(f) == [i \in 1..NSrc(f) |-> InitSrc(<<f, i>>, FALSE)]
 InitMQ      == [ss |-> NoneSt, sbal |-> 0, rs |-> NoneSt, frames |-> EmptyF, has |-> FALSE, inp |-> EmptyF, tw |-> 0, ln |-> FALSE]
 \* ln: what process() returned is a callable that will yield None when the sender evaluates it (a relay with Beh.lazy on a skipped id)
 \* tw: recv() slices of the current loop_once that timed out (counted only when the filter has a sources_timeout)
-InitSL      == [mid |-> 0, bal |-> 0, doSend |-> FALSE, doHello |-> FALSE, outs |-> {}, waited |-> 0]
+InitSL      == [mid |-> 0, bal |-> 0, doSend |-> FALSE, doHello |-> FALSE, outs |-> <<>>, waited |-> 0]
 \* waited: ZMQ_POLL_TIMEOUT ticks spent in this send() call; only kept by the design mutation "stale_t" (one clock read per call)
 StartPC(f)  == IF IsOrigin(f) THEN "gen" ELSE "r_enter"
 
@@ -642,9 +642,10 @@ SetSeq(S) == SelectSeq(TopicOrder, LAMBDA t : t \in S)
 (* send_maybe (zeromq.py:416-486) followed by the code after it.  lc = locals, cl = clients; waitpc = where to park if
    nothing is sent. *)
 SendMaybe(f, lc, cl, waitpc) ==
-  LET \* (balanced: do_send / outputs are not recomputed after a CLOSE removed a client, zeromq.py:352-360; the model waits when no
-      \* output is eligible for the clients that are left - the code would publish on the endpoint it chose before: see DESIGN.md)
-      canSend == lc.doSend /\ Len(cl) > 0 /\ (OutBal[f] => Eligible(f, cl) # {})
+  LET \* (do_send / outputs are not recomputed after a CLOSE removed a client, zeromq.py:352-360: a balanced publisher chooses its
+      \* endpoint from `outputs` as of the last request, lc.outs, even if the worker behind it has left since)
+      canSend == lc.doSend /\ Len(cl) > 0
+      ocl     == lc.outs
       lazyNone == mq[f].ln
   IN IF canSend /\ lazyNone
      THEN \* the callable yields None: "frames have been sent" (zeromq.py:424-426): nothing is published, no id is used up, no
@@ -667,7 +668,7 @@ SendMaybe(f, lc, cl, waitpc) ==
               frames == IF Beh[f].hid THEN frames0 @@ [t \in {HTopic} |-> NoPay] ELSE frames0
               ts     == Dom(frames)
               ordT   == SetSeq(ts)
-              out    == IF OutBal[f] /\ ~D("bal_all_pubs") THEN {ChooseOut(f, cl)} ELSE AllOuts(f)
+              out    == IF OutBal[f] /\ ~D("bal_all_pubs") THEN {ChooseOut(f, ocl)} ELSE AllOuts(f)
               balv   == IF OutBal[f] THEN 1 ELSE IF lc.bal > 0 THEN (IF lc.bal >= 3 THEN 3 ELSE lc.bal + 1) ELSE 0
               data   == [n \in 1..Len(ordT) |-> [k |-> "data", mid |-> lc.mid, topic |-> ordT[n], topics |-> ts,
                                                  pay |-> frames[ordT[n]], bal |-> balv, inc |-> inc[f]]]
@@ -679,7 +680,7 @@ SendMaybe(f, lc, cl, waitpc) ==
           IN /\ pubq' = PubAll(f, out, data \o tmsg, pq1)
              /\ clients' = [clients EXCEPT ![f] = [n \in 1..Len(cl) |-> IF n \in incl /\ ~D("no_clear_req") THEN [cl[n] EXCEPT !.req = FALSE] ELSE cl[n]]]
              /\ minSend' = [minSend EXCEPT ![f] = lc.mid + 1]
-             /\ sl' = [sl EXCEPT ![f] = [lc EXCEPT !.doHello = FALSE]]
+             /\ sl' = [sl EXCEPT ![f] = [lc EXCEPT !.doHello = FALSE, !.outs = <<>>]]
              /\ mq' = [mq EXCEPT ![f].rs = lc.mid + 1, ![f].ss = NoneSt, ![f].has = FALSE, ![f].frames = EmptyF]
              /\ oseq' = IF lazy THEN [oseq EXCEPT ![f] = @ + 1] ELSE oseq
              /\ plog' = [plog EXCEPT ![f] = @ \cup {[i |-> inc[f], mid |-> lc.mid, ts |-> frames, outs |-> out]}]
@@ -745,7 +746,7 @@ SPollMsg(f, phase) ==
                                /\ UNCHANGED <<sl, pubq, oseq, plog, ahead, bad>>
                           ELSE LET wt  == IF D("stale_t") THEN lc.waited ELSE 0
                                    cl2 == ExpireW(cl1, wt)                 \* 387-396
-                                   lc1 == [lc EXCEPT !.doSend = DoSend(f, cl2)]
+                                   lc1 == [lc EXCEPT !.doSend = DoSend(f, cl2), !.outs = IF OutBal[f] THEN cl2 ELSE <<>>]
                                IN /\ bad' = bad \cup
                                        (IF \E n \in 1..Len(cl2) : cl2[n].eph = 0 /\ ~cl2[n].req /\ lc1.doSend /\ ~OutBal[f]
                                         THEN {"C05_GuardSync"} ELSE {}) \cup
@@ -990,6 +991,13 @@ ReachX == UNION {ReachK(ExitKind[f], {f}) : f \in Exiters}
 C08_NoSpuriousExit == \A f \in Filters : Closing(f) => f \in ReachX
 C08_AllEnded == \A f \in ReachX : pc[f] = "done"
 C08_WholePipeline == <>[]C08_AllEnded
+
+(* Reachability goals: "invariants" that are meant to be FALSE somewhere - TLC's counterexample is the shortest schedule that gets
+   there, and that schedule is replayed on the real code with the state compared after every step (Engine.reach). *)
+\* a balanced publisher has just published on an endpoint that none of its clients is attached to any more (stale `outputs`)
+X_NoStaleEndpoint == \A g \in Filters : (OutBal[g] /\ Alive(g) /\ ~Closing(g)) =>
+                        \A r \in plog[g] : (r.mid = minSend[g] - 1 /\ r.i = inc[g]) =>
+                                              \E n \in 1..Len(clients[g]) : OutOf(clients[g][n].c) \in r.outs
 
 \* no filter dies of a RuntimeError raised by the protocol code itself
 NoCrash == \A f \in Filters : pc[f] # "crashed"
